@@ -561,6 +561,7 @@ func c18Corpus() []struct {
 }
 
 func checkC18(c *Ctx) {
+	c18StaleTemp(c)
 	c.SetRule("one case = one history (1–60 operations: Set/Get/Delete/KeysWithSuffix/reopen + SaveEntity/EntityWithName/DeleteEntity/Entities) " +
 		"on one fresh directory, over 1–6 keys (incl. keys with ':', aliasing pairs, 200–251 byte keys, arbitrary bytes) and 1–4 entity names " +
 		"(arbitrary bytes ≤ 100, valid UTF-8 and not), values 0..4096 bytes; non-trivial = the history overwrites a live key with a value of " +
@@ -659,4 +660,49 @@ func bucket(n int, bs ...int) int {
 		}
 	}
 	return bs[len(bs)-1]
+}
+
+// c18StaleTemp: the map must also survive restarts after a writer was killed: what a killed Set leaves behind (C19: a
+// `<file>.tmp` sibling with any content) must not leak into later values of the key. Direct oracle only.
+func c18StaleTemp(c *Ctx) {
+	for i := 0; i < c.Pick(40, 400); i++ {
+		id := c.CaseID("stale-temp", i)
+		if c.Skip(id) {
+			continue
+		}
+		r := c.CaseRng("stale-temp", i)
+		dir := filepath.Join(c.ScratchDir(), "store")
+		st, err := util.NewFileStorage(dir)
+		if err != nil {
+			c.Violate("storage cannot be created", id, dir, "storage", err.Error())
+			continue
+		}
+		key := []string{"uuid", "version", "configHash", "k" + fmt.Sprint(r.Intn(9)), "a.entity"}[r.Intn(5)]
+		junk := randBytes(r, 1+r.Intn(5000))
+		var old []byte
+		if r.Intn(2) == 0 {
+			old = randBytes(r, r.Intn(300))
+			st.Set(key, old)
+		}
+		os.WriteFile(filepath.Join(dir, key+".tmp"), junk, 0644) // what a writer killed between write and rename leaves behind
+		st2, _ := util.NewFileStorage(dir)                       // restart
+		if old != nil {
+			if got, err := st2.Get(key); err != nil || !bytes.Equal(got, old) {
+				c.Violate("storage Get after a restart differs from the last value set (stale temporary file present)", id,
+					map[string]interface{}{"key": key, "stale_tmp_bytes": len(junk)}, hx(old), fmt.Sprint(hx(got), err))
+			}
+		}
+		val := randBytes(r, r.Intn(len(junk)+10))
+		if err := st2.Set(key, val); err != nil {
+			c.Violate("storage Set fails when a stale temporary file is present", id, key, "nil", err.Error())
+		}
+		st3, _ := util.NewFileStorage(dir)
+		got, err := st3.Get(key)
+		if err != nil || !bytes.Equal(got, val) {
+			c.Violate("storage Get returns a mixture of the last value set and an older, abandoned write", id,
+				map[string]interface{}{"key": key, "stale_tmp_bytes": len(junk), "new_value_bytes": len(val)}, trunc(hx(val), 200), trunc(hx(got), 200)+fmt.Sprint(" ", err))
+		}
+		c.Count(fmt.Sprint("stale/", key, len(junk), len(val)), len(val) < len(junk), "stream:stale-temp")
+		os.RemoveAll(dir)
+	}
 }
